@@ -26,8 +26,16 @@ RULE = ("a case = (role, failByDrop, echoCloseCodeReason, closeHandshakeTimeout,
         "peer stays silent, the bounded-closure deadline is evaluated, the transport is torn down, late timers fire and every "
         "send API is called once more. Exhaustive: ALL sequences of length <=3 (quick) / <=4 plus length 5 over a 7-letter "
         "alphabet (thorough) over a 12-letter reduced alphabet x 24 configurations; random sequences of length 4..10 over the "
-        "full alphabet and the full {0,1,2,5} timeout grid beyond. Non-trivial = the connection was OPEN and the onClose "
-        "arguments were judged; distinct = hash of (framework, NVX flag, whole case).")
+        "full alphabet and the full {0,1,2,5} timeout grid beyond. ASYNCHRONOUS OPENING HANDSHAKE family (start = CONNECTING): "
+        "the server's onConnect() / the client's onConnecting() return a PENDING Deferred (Twisted) / Future (asyncio) that the "
+        "harness resolves (server: None | subprotocol | (subprotocol, headers) | ConnectionDeny | other exception; client: None | "
+        "ConnectingRequest | exception) at a chosen point - also before the callback runs (already fired future) and, when still "
+        "pending at the end, AFTER the transport is gone - interleaved with peer TCP drop (clean/unclean), the opening-handshake "
+        "timeout (openHandshakeTimeout in {0,1,2}), peer octets buffered meanwhile, delivery of the endpoint's own drop, local "
+        "sendClose/sendMessage and late timers: ALL sequences of length <=3 (quick) / <=4 plus length 5 over 6 letters (thorough) "
+        "after the request over an 11-letter server alphabet and a 9-letter client alphabet x 6 configurations, random beyond. "
+        "Non-trivial = the connection was OPEN and the onClose arguments were judged, or a pending application decision was "
+        "delivered under the monitors; distinct = hash of (framework, NVX flag, whole case).")
 ASSUMPTIONS = [
     "virtual clock and fake transports of vf/world.py are faithful to Twisted/asyncio as far as DESIGN 2.2 states (asyncio transports drop data written after close(), Twisted ones accept it after loseConnection())",
     "'written' = accepted by the transport; 'close frame travelled to the peer' = written by the endpoint; 'received' = fed completely to the endpoint while its transport was reading",
@@ -37,12 +45,21 @@ ASSUMPTIONS = [
     "when several valid peer close frames were delivered the reported code/reason may be that of any of them",
     "bounded closure is evaluated with the peer silent from the end of the sequence on, deadline t0 + sum(applicable timeouts) + 1 s; closeHandshakeTimeout applies unless a valid peer close frame preceded ours, serverConnectionDropTimeout applies to a client once any peer close frame was delivered; a timeout configured 0 makes the case vacuous",
     "only control of the closing machinery is judged here: auto-ping, PMCE, proxies and TLS are not driven",
+    "asynchronous opening handshake: only the documented asynchronous hooks are driven (server onConnect() 'can also return a Deferred/Future', client onConnecting() 'or a future which resolves to one'); the client's onConnect() is documented to return None and is left synchronous",
+    "grey: a connection that never became OPEN and gets no onClose at all is not flagged in the asynchronous-handshake family (on the unchanged tree onClose(False, 1006, ..) is always delivered; a second onClose, onClose before connection-lost and anything delivered/written after it ARE flagged); which HTTP response a denied or timed-out handshake gets, the text of the unclean reason and whether a decision that arrives after a LOCAL drop (timeout) but before connection-lost still writes to the aborting transport are left open",
+    "a peer close frame fed while the server's onConnect() result is pending counts as received (it is buffered and processed when the handshake completes); octets fed before the handshake request/response do not",
+    "asyncio adapter: the transport is detached (None) in connection_lost(); an AttributeError \"'NoneType' object has no attribute 'write'\" that reaches the event loop's exception handler after onClose is read as an attempted transport write after onClose",
 ]
 DECIDING = {
     "transitions": 6, "state_assignments": 1000, "onclose_delivered": 1000, "close_frames_parsed": 500,
     "frames_parsed": 1000, "bounded_cht_evaluated": 50, "bounded_sdt_evaluated": 50, "bounded_closed_in_time": 50,
     "wasclean_true_checked": 50, "wasclean_false_checked": 50, "wasclean_true_code_reason_matched": 50,
     "close_reason_near_limit_checked": 20, "roles_fw": 4,
+    # asynchronous opening handshake: pending application decisions delivered ...
+    "async_resolved_while_connecting": 2000,     # ... before connection loss and before the opening-handshake timeout
+    "async_resolved_after_timeout": 200,        # ... after the opening-handshake timeout dropped the connection (connection-lost not yet delivered)
+    "async_resolved_after_lost": 2000,          # ... after connection-lost (peer TCP drop or delivery of the own drop) and onClose
+    "async_opened_by_result": 1000,             # ... and the connection became OPEN through the late result
 }
 
 # ------------------------------------------------------------------------------------------------
@@ -74,6 +91,66 @@ def exhaustive_cases(alpha, maxlen, minlen=1):
                 c = dict(cfg)
                 c.update(start="open", seg="whole", fc=bool(n & 1), react=None, events=[alpha[i] for i in seq])
                 yield c
+
+
+# ---- asynchronous opening handshake family ----------------------------------------------------------------
+ASYNC_SRV = [["res", "none"], ["res", "deny"], ["res", "tuple"], ["pdrop", False], ["pdrop", True], ["tick"], ["fin"],
+             ["close", 1000, "a"], ["msg", "text"], ["pdata", "text"], ["pclose", "v1000"]]
+ASYNC_SRV_MANUAL = [["hs"], ["res", "none"], ["res", "deny"], ["pdata", "text"], ["pdrop", False], ["tick"]]
+ASYNC_SRV6 = [["res", "proto"], ["res", "exc"], ["pdrop", False], ["tick"], ["fin"], ["close", 3000, "mb3@122"]]
+ASYNC_CLI = [["res", "none"], ["res", "req"], ["res", "exc"], ["hs"], ["pdrop", False], ["tick"], ["fin"], ["close", 1000, "a"],
+             ["pdata", "text"]]
+ASYNC_CLI6 = [["res", "none"], ["res", "exc"], ["hs"], ["pdrop", True], ["tick"], ["fin"]]
+
+
+def _async_enum(role, alpha, lens, prefix, lates):
+    for n in lens:
+        for seq in itertools.product(range(len(alpha)), repeat=n):
+            for oht in (0, 1, 2):
+                for late in lates:
+                    yield {"role": role, "fbd": False, "echo": False, "cht": 2, "sdt": 1 if role == "client" else 0,
+                           "start": "connecting", "async": "onconnect" if role == "server" else "onconnecting", "oht": oht,
+                           "late": late, "seg": "whole", "fc": bool(n & 1), "react": None,
+                           "events": [list(e) for e in prefix] + [alpha[i] for i in seq]}
+
+
+def async_cases(tier):
+    deep = tier == "thorough"
+    yield from _async_enum("server", ASYNC_SRV, range(0, 5 if deep else 4), [["hs"]], ("none", "deny"))
+    yield from _async_enum("server", ASYNC_SRV_MANUAL, range(1, 5 if deep else 4), [], ("none", "deny"))
+    yield from _async_enum("client", ASYNC_CLI, range(0, 5 if deep else 4), [], ("none", "exc"))
+    if deep:
+        yield from _async_enum("server", ASYNC_SRV6, (5,), [["hs"]], ("tuple0", "exc"))
+        yield from _async_enum("client", ASYNC_CLI6, (5,), [], ("req", "exc"))
+
+
+def gen_async_case(rng):
+    role = rng.choice(["server", "server", "client"])
+    kinds = ["none", "proto", "tuple", "tuple0", "deny", "exc"] if role == "server" else ["none", "req", "exc"]
+    c = {"role": role, "fbd": rng.random() < 0.5, "echo": rng.random() < 0.5, "cht": rng.choice([0, 1, 2, 5]),
+         "sdt": rng.choice([0, 1, 2, 5]) if role == "client" else 0, "start": "connecting",
+         "async": "onconnect" if role == "server" else "onconnecting", "oht": rng.choice([0, 1, 2]), "late": rng.choice(kinds),
+         "seg": _w(rng, [(6, "whole"), (2, "bytewise"), (2, "split2")]), "fc": rng.random() < 0.5,
+         "react": _w(rng, [(8, None), (1, "close"), (1, "msg"), (1, "prepared")])}
+    ev = []
+    for _ in range(rng.randint(3, 9)):
+        x = rng.random()
+        if x < 0.22:
+            ev.append(["res", rng.choice(kinds)])
+        elif x < 0.30:
+            ev.append(["hs"])
+        elif x < 0.40:
+            ev.append(["tick"])
+        elif x < 0.48:
+            ev.append(["pdrop", rng.random() < 0.5])
+        elif x < 0.54:
+            ev.append(["fin"])
+        else:
+            ev.append(gen_event(rng))
+    if role == "server" and rng.random() < 0.8:
+        ev.insert(0, ["hs"])
+    c["events"] = ev
+    return c
 
 
 def _w(rng, table):
@@ -171,7 +248,7 @@ def _judge_case(case, R, fw, nvx, sample_every):
     m = E.run_case(case, R)
     R.seen("roles_fw", "%s/%s" % (case["role"], fw))
     R.seen("configs", "%s/%d/%d/%d/%d" % (case["role"], case["fbd"], case["echo"], case["cht"], case.get("sdt", 0)))
-    if m.opened and m.onclose:
+    if (m.opened and m.onclose) or m.n_resolved:
         R.seen("nontrivial", h([fw, nvx, case]))
     R.sample({"case": case, "transitions": [[E.SN[a], E.SN[b]] for a, b in m.transitions],
               "onClose": [list(o[1:4]) for o in m.onclose],
@@ -212,6 +289,13 @@ def run_shard(params, R):
                 _judge_case(case, R, fw, nvx, 4999)
                 R.count("exhaustive_cases")
             idx += 1
+    # ---- asynchronous opening handshake: exhaustive short sequences
+    idx = 0
+    for case in async_cases("thorough" if tier == "thorough" else "quick"):
+        if idx % parts == part:
+            _judge_case(case, R, fw, nvx, 1999)
+            R.count("async_exhaustive_cases")
+        idx += 1
     # ---- random part
     n_rand = {"quick": 5000, "thorough": 22000, "pure": 30000}[tier]
     rng = random.Random((seed * 1000003 + part * 7919 + (17 if fw == "aio" else 0) + (1 if nvx else 0) * 31) & 0xFFFFFFFF)
@@ -219,6 +303,11 @@ def run_shard(params, R):
         case = gen_case(rng)
         _judge_case(case, R, fw, nvx, 997)
         R.count("random_cases")
+    rng = random.Random((seed * 1000003 + part * 7919 + (17 if fw == "aio" else 0) + (1 if nvx else 0) * 31 + 0x5A5A) & 0xFFFFFFFF)
+    for _ in range({"quick": 350, "thorough": 2500, "pure": 4000}[tier]):
+        case = gen_async_case(rng)
+        _judge_case(case, R, fw, nvx, 499)
+        R.count("async_random_cases")
 
 
 def replay(case, R):
@@ -234,13 +323,19 @@ MANIFEST_ENTRY = {
              "sequence of length <=3 (<=4-5 thorough) over a reduced alphabet and through random sequences of length 4..10 over "
              "local sendClose/sendMessage/sendPreparedMessage/streaming calls, peer close frames (valid, empty, invalid code, "
              "invalid reason, 1-byte), peer data/ping/violations, timer expirations, peer TCP drop and delivery of its own drop, "
-             "for all failByDrop/echoCloseCodeReason settings and close/drop timeouts in {0,1,2,5}. Online monitors assert: state "
+             "for all failByDrop/echoCloseCodeReason settings and close/drop timeouts in {0,1,2,5}. A second family starts in "
+             "CONNECTING with an asynchronous application decision (server onConnect() / client onConnecting() returning a pending "
+             "Deferred/Future) that is accepted, refused or failed at every point relative to peer TCP loss, the opening-handshake "
+             "timeout (0/1/2 s), buffered peer octets, delivery of the own drop and local send/close calls - including after the "
+             "transport is gone. Online monitors assert: state "
              "only moves forward; onClose exactly once and only after connection-lost; no callback or transport write after it; "
              "at most one close frame, no data frame after it, only wire-legal codes and <=123-byte valid UTF-8 reasons (octets "
              "re-parsed by an independent RFC 6455 codec); wasClean=True only when close frames travelled both ways and then with "
              "the peer's code/reason; with the peer silent the connection is CLOSED by t0 + applicable timeouts + 1 s on the "
              "virtual clock. Held = no refuting event on the executions listed in the evidence; not a proof."),
     "note": ("trusts vf/world.py fake transports + virtual clock, vf/rfc6455_ref.py; grey zones (invalid peer close frames reported "
-             "clean, 1012-1014, sync send queue) are not asserted; auto-ping/PMCE/TLS/proxy paths are not driven"),
+             "clean, 1012-1014, sync send queue, a never-OPEN connection without any onClose, HTTP response/reason text of a refused "
+             "or timed-out opening handshake) are not asserted; auto-ping/PMCE/TLS/proxy paths and an asynchronous client onConnect() "
+             "are not driven"),
     "technique": "runtime monitoring: online invariants on state/callback/transport hooks + independent RFC 6455 re-parse of written octets, exhaustive short event sequences and random long ones on a virtual clock",
 }
